@@ -33,20 +33,22 @@ Definition insert_at {A} (i : nat) (x : A) (l : list A) : list A := firstn i l +
 Definition remove_at {A} (i : nat) (l : list A) : list A := firstn i l ++ skipn (S i) l.
 Definition set_at {A} (i : nat) (x : A) (l : list A) : list A := firstn i l ++ x :: skipn (S i) l.
 
-(* f applied to the i-th element of l, d when there is none.  Written as a Fixpoint on l so that
+(* f applied to the i-th element of l, d when there is none.  f and d are outside the fix so that
    recursive functions over the nested type `node` can call themselves through it (like map). *)
-Fixpoint nth_map {A B} (f : A -> B) (d : B) (l : list A) (i : nat) {struct l} : B :=
+Definition nth_map {A B} (f : A -> B) (d : B) : list A -> nat -> B :=
+  fix go (l : list A) (i : nat) {struct l} : B :=
   match l, i with
   | [], _ => d
   | x :: _, O => f x
-  | _ :: r, S i' => nth_map f d r i'
+  | _ :: r, S i' => go r i'
   end.
 
 (* first Some among f 0 x0, f 1 x1, ... (indices start at j) *)
-Fixpoint first_some_i {A B} (f : nat -> A -> option B) (l : list A) (j : nat) {struct l} : option B :=
+Definition first_some_i {A B} (f : nat -> A -> option B) : list A -> nat -> option B :=
+  fix go (l : list A) (j : nat) {struct l} : option B :=
   match l with
   | [] => None
-  | x :: r => match f j x with Some b => Some b | None => first_some_i f r (S j) end
+  | x :: r => match f j x with Some b => Some b | None => go r (S j) end
   end.
 
 Definition bind {A B} (r : result A) (f : A -> result B) : result B :=
